@@ -17,6 +17,7 @@ PROP_MODULES = {
     "C16": ["Tramp.Props.C16"],
     "C20": ["Tramp.Props.C20"],
     "C17": ["Tramp.Props.C17"],
+    "C19": ["Tramp.Props.C19"],
 }
 
 # property -> theorem names (in namespace Tramp) = the proof obligations
@@ -40,6 +41,7 @@ OBLIGATIONS = {
     "C15": ["pstep_inv", "c15_some", "c15_none", "c15_err_only_on_fault", "c15_codes", "c15_pinned_counterexample"],
     "C16": ["pstep_inv", "c16_ok", "c16_err", "c16_pinned_counterexample"],
     "C17": ["c17_chunking", "c17_chunking_from_start", "c17_roundtrip", "c17_writer", "c17_dispatch"],
+    "C19": ["c19_iff", "c19_refuses_deltas", "c19_faithful", "c19_retry_cap"],
     "C20": ["c20_max", "c20_monotone", "c20_poll_catches_up", "c20_serve_truthful", "c20_timer_armed", "c20_timer_fires"],
 }
 
@@ -51,6 +53,7 @@ SUITES = {
     "provider": {"profiles": ["dev"]},
     "height": {"profiles": ["dev"]},
     "wire": {"profiles": ["dev"]},
+    "e2e": {"profiles": ["dev"], "needs_repo_bin": True},
 }
 
 # property -> suites whose correspondence it depends on
@@ -62,7 +65,8 @@ PROP_SUITES = {
     "C15": ["provider"],
     "C16": ["provider"],
     "C20": ["height"],
-    "C17": ["wire"],
+    "C17": ["wire", "e2e"],
+    "C19": ["e2e", "provider"],
 }
 
 # protocol op -> properties that a model/implementation divergence on that op un-proves
@@ -73,6 +77,7 @@ OP_PROPS = {
     "fs": ["C12", "C03", "C06", "C07", "C04"], "ef": ["C12", "C11", "C06"],
     "cl": ["C10", "C13", "C01", "C06"],
     "hw": ["C20", "C04"], "wf": ["C17"], "wd": ["C17", "C06"],
+    "cf": ["C19"], "hx": ["C06", "C13"],
     "pw": ["C15", "C16", "C02", "C05", "C08"], "pa": ["C16", "C19", "C03", "C04"],
 }
 
